@@ -270,8 +270,17 @@ pub(super) fn read_artifact_range(
         .map_err(|err| format!("read artifact failed: {err}"))?;
     buf.truncate(read_bytes);
 
+    // A page that ends inside a multi-byte character would decode to U+FFFD here and again at
+    // the start of the next page. End the page at the character boundary instead, unless that
+    // would return nothing (a page smaller than the character).
+    if let Err(err) = std::str::from_utf8(&buf) {
+        if err.error_len().is_none() && err.valid_up_to() > 0 {
+            buf.truncate(err.valid_up_to());
+        }
+    }
+
     let (content, utf8_truncated, used_bytes) = truncate_utf8(&buf, max_bytes);
-    let truncated = utf8_truncated || (offset_bytes + read_bytes as u64) < total_bytes;
+    let truncated = utf8_truncated || (offset_bytes + used_bytes as u64) < total_bytes;
     Ok((content, used_bytes, total_bytes, truncated))
 }
 
